@@ -350,20 +350,63 @@ def _hinted_subjects(targets):
     return out
 
 
+def _eocd(data):
+    """(offset, end) of the last end-of-central-directory record of a well-formed container, or None."""
+    pos = data.rfind(b"PK\x05\x06")
+    if pos < 0 or pos + 22 > len(data):
+        return None
+    return pos, pos + 22 + int.from_bytes(data[pos + 20:pos + 22], "little")
+
+
+def _damaged(data):
+    """The error paths of the container grammar: the same bytes in the shapes that gateways / downloads / self-extractors
+    produce and that stock `zipfile` refuses or reads differently -- data after the end record (more than the 64 KiB window
+    zipfile searches, and a little), a stub in front, a ZIP comment, a truncated end record, a central directory that is gone
+    (local headers only).  Whatever a reader does with them (refuse, recover, repair), no member may be decompressed from a
+    container the guard has not accepted."""
+    out = [("followed by 70,000 zero bytes after the end-of-central-directory record", data + b"\0" * 70000),
+           ("followed by 300 bytes of trailing data", data + b"\r\n--gateway-signature--" * 12 + b"\0" * 12),
+           ("preceded by a 4,096-byte stub (self-extractor style)", b"MZ" + b"\x90" * 4094 + data)]
+    e = _eocd(data)
+    if e is not None:
+        pos, end = e
+        if end == len(data):
+            out.append(("with a 40-byte archive comment", data[:pos + 20] + (40).to_bytes(2, "little") + b"c" * 40))
+        out.append(("with the end-of-central-directory record cut after 10 bytes", data[:pos + 10]))
+        cd_off = int.from_bytes(data[pos + 16:pos + 20], "little")
+        if 0 < cd_off < pos:
+            out.append(("with the central directory cut off (local headers only)", data[:cd_off]))
+    return out
+
+
+def _stock_opens(data):
+    """A shape that stock zipfile reads is a readable bomb: it has to come back as the zip-bomb error like the undamaged one."""
+    import zipfile
+    try:
+        with zipfile.ZipFile(io.BytesIO(data), "r") as zf:
+            return len(zf.infolist()) > 0
+    except Exception:  # noqa
+        return False
+
+
 def native_order(only=None, extra_subjects=()):
     """Runs every ZIP-container entry point on a well-formed document and on the same document with a bomb member under the
     event monitor.  Failure = a member access on a container nobody validated, or a bomb that does not come back as
-    ExtractionZipBombError."""
+    ExtractionZipBombError.  Then the error paths: the bomb document in the damaged shapes of `_damaged` -- a shape stock zipfile
+    still reads must be rejected like the undamaged bomb, for the others any outcome is fine except a member access on a
+    container nobody validated."""
     hinted = {id(x[2]) for x in extra_subjects}
     for target, rel, call, data in list(extra_subjects) + _subjects():
         if only and not any(o in target for o in only):
             continue
-        for label, payload in (("well-formed document", data), ("same document plus a 3,000,000-byte all-zero member", None)):
-            if payload is None:
-                try:
-                    payload = _with_bomb_member(data)
-                except Exception:  # noqa
-                    continue
+        cases = [("well-formed document", data, True)]
+        try:
+            bomb = _with_bomb_member(data)
+            cases.append(("same document plus a 3,000,000-byte all-zero member", bomb, True))
+            cases += [(f"same document plus a 3,000,000-byte all-zero member, {how}", d, _stock_opens(d)) for how, d in _damaged(bomb)]
+        except Exception:  # noqa
+            pass
+        for label, payload, strict in cases:
             with Monitor() as mon:
                 res = _run(call, payload)
             if mon.violations:
@@ -372,7 +415,7 @@ def native_order(only=None, extra_subjects=()):
                         "expected": ORDER_EXPECT,
                         "observed": f"member `{nm}` opened on a container that was never validated ({len(mon.violations)} such access(es); "
                                     f"call ended with {res}); first events: {mon.trace()}"}
-            if label != "well-formed document" and res != "ExtractionZipBombError" and id(call) not in hinted:
+            if strict and label != "well-formed document" and res != "ExtractionZipBombError" and id(call) not in hinted:
                 return {"target": target, "inputs": {"fixture": "tests/resources/" + rel, "case": label},
                         "expected": "ExtractionZipBombError", "observed": res}
     return None
